@@ -368,21 +368,55 @@ class Engine(CoreMixin, ExprMixin, CallMixin, StmtMixin, BuiltinMixin):
         rep.engine = self
 
     def discharge_many(self, reps, timeout, keep_dir=None, jobs=14):
-        """Discharge the obligations of many functions in one pool (covers last)."""
+        """Discharge the obligations of many functions: phase 1 = z3 alone with a short budget, all in parallel;
+        phase 2 = the obligations left open, raced on the three solvers with few concurrent races (so that the
+        budgets mean the same whether or not the machine is busy); covers last."""
         work = []
         for rep in reps:
             for o in rep.pending:
                 work.append((rep, o))
-        work.sort(key=lambda ro: ro[1].kind == "cover")
+        texts = {}
 
-        def run(ro):
+        def text_of(ro):
+            k = id(ro[1])
+            if k not in texts:
+                texts[k] = self.vc_text(ro[1], rep=ro[0])
+            return texts[k]
+
+        def quick(ro):
             rep, o = ro
-            text = self.vc_text(o, rep=rep)
-            if o.expect == "sat":
-                o.result = smt.solve_text(text, timeout=getattr(self, "cover_timeout", 1.0), keep_dir=keep_dir, name=o.name, order=["z3-5.1.0"], quick_first=False)
-            else:
-                o.result = smt.solve_text(text, timeout=timeout, keep_dir=keep_dir, name=o.name)
+            o.result = smt.solve_text(text_of(ro), timeout=1.5, keep_dir=keep_dir, name=o.name, order=["z3-5.1.0"], quick_first=False)
             return ro
+
+        def full(ro):
+            rep, o = ro
+            first = o.result.attempts
+            o.result = smt.solve_text(text_of(ro), timeout=timeout, keep_dir=keep_dir, name=o.name, quick_first=False, race_all=True,
+                                      order=["cvc5-1.0.3", "z3-4.8.12"] if getattr(self, "lean_race", True) else None)
+            o.result.attempts = list(first) + list(o.result.attempts)
+            return ro
+
+        def cover(ro):
+            rep, o = ro
+            o.result = smt.solve_text(text_of(ro), timeout=getattr(self, "cover_timeout", 1.0), keep_dir=keep_dir, name=o.name, order=["z3-5.1.0"], quick_first=False)
+            return ro
+        obls = [ro for ro in work if ro[1].kind != "cover"]
+        covers = [ro for ro in work if ro[1].kind == "cover"]
         with ThreadPoolExecutor(jobs) as pool:
-            for rep, o in pool.map(run, work):
-                (rep.covers if o.kind == "cover" else rep.obligations).append(o)
+            list(pool.map(quick, obls))
+        hard = [ro for ro in obls if ro[1].result.status not in ("sat", "unsat")]
+        with ThreadPoolExecutor(max(1, min(6, jobs // 2))) as pool:
+            list(pool.map(full, hard))
+        # what is still open gets the whole machine, one obligation at a time, with all three solvers
+        left = [ro for ro in hard if ro[1].result.status not in ("sat", "unsat")]
+        if left and getattr(self, "final_pass", True):
+            self.lean_race = False
+            try:
+                for ro in left[:6]:
+                    full(ro)
+            finally:
+                self.lean_race = True
+        with ThreadPoolExecutor(jobs) as pool:
+            list(pool.map(cover, covers))
+        for rep, o in work:
+            (rep.covers if o.kind == "cover" else rep.obligations).append(o)
